@@ -149,3 +149,39 @@ Proof.
     unfold py_index. cbv zeta.
     replace (key <? 0) with true by lia. replace (key + lenZ items <? 0) with false by lia. reflexivity.
 Qed.
+
+(* ---- the plain sub-list: v[a:b] with 0 <= a <= b <= len is "drop a, then take b - a" ---- *)
+Lemma py_slice_sublist l a b : 0 <= a <= b -> b <= lenZ l ->
+  py_slice l (Some a) (Some b) 1 = takeZ (b - a) (skipZ a l).
+Proof.
+  intros Hab Hb. apply nth_error_ext; intros n.
+  rewrite nth_error_py_slice, nth_error_takeZ, nth_error_skipZ by lia. cbv zeta.
+  unfold py_a, py_b, py_bound, py_count.
+  replace (1 <? 0) with false by reflexivity. replace (0 <? 1) with true by reflexivity.
+  replace (a <? 0) with false by lia. replace (b <? 0) with false by lia.
+  destruct (lenZ l <=? a) eqn:Ea; destruct (lenZ l <=? b) eqn:Eb.
+  - (* a = b = len *) replace (lenZ l <? lenZ l) with false by lia.
+    replace (Z.of_nat n <? 0) with false by lia. replace (Z.of_nat n <? b - a) with false by lia. reflexivity.
+  - lia.
+  - (* b = len *) assert (b = lenZ l) by lia; subst b.
+    replace (a <? lenZ l) with true by lia.
+    replace ((lenZ l - a - 1) / 1 + 1) with (lenZ l - a) by (rewrite Z.div_1_r; lia).
+    destruct (Z.of_nat n <? lenZ l - a) eqn:E1; [|reflexivity].
+    replace (Z.to_nat (a + Z.of_nat n * 1)) with (Z.to_nat a + n)%nat by lia.
+    symmetry; apply nth_error_nth_in. unfold lenZ in *. lia.
+  - destruct (a <? b) eqn:E0.
+    + replace ((b - a - 1) / 1 + 1) with (b - a) by (rewrite Z.div_1_r; lia).
+      destruct (Z.of_nat n <? b - a) eqn:E1; [|reflexivity].
+      replace (Z.to_nat (a + Z.of_nat n * 1)) with (Z.to_nat a + n)%nat by lia.
+      symmetry; apply nth_error_nth_in. unfold lenZ in *. lia.
+    + replace (Z.of_nat n <? 0) with false by lia. replace (Z.of_nat n <? b - a) with false by lia. reflexivity.
+Qed.
+
+Lemma model_slice_sublist k items a b : lenZ items <= i64_max -> 0 <= a <= b -> b <= lenZ items ->
+  model_slice k items (Some a) (Some b) None = Ok (rkind k, takeZ (b - a) (skipZ a items)).
+Proof.
+  intros Hl Hab Hb. rewrite slice_python_proof; try assumption; try exact I.
+  - cbn. rewrite py_slice_sublist by assumption. reflexivity.
+  - cbn. unfold valid_int, i128_min, u128_max, i64_max in *. lia.
+  - cbn. unfold valid_int, i128_min, u128_max, i64_max in *. lia.
+Qed.
